@@ -43,8 +43,8 @@ func runC09(r *core.Run) {
 	defer c14SendFailureReturns(r, "R09.11")
 	r.Rule("R09.12", "values read from the reply (the nonce) do not alias queue storage (R02.6)", 1, false)
 	defer func() {
-	r.Rule("R09.13", "login-record fields have their byte width: writeString tests, pads and declares len(s) (R06.6)", 1, false)
-	defer c06WriteString(r, "R09.13")
+		r.Rule("R09.13", "login-record fields have their byte width: writeString tests, pads and declares len(s) (R06.6)", 1, false)
+		defer c06WriteString(r, "R09.13")
 		ok, why := bytesReturnsFresh(r.Prog)
 		r.Check(ok, "R09.12", "PacketQueue.Bytes returns a buffer of its own", r.Prog.Func("tds", "PacketQueue", "Bytes").Pos(), "make([]byte, n) allocated by the call", why)
 	}()
